@@ -168,8 +168,8 @@ pub fn checks() -> Vec<Check> {
         stages: vec![
             st("c06.product", c06::product, (0, 0), 3, "full product: blob length 0..=1023 (thorough 0..=3071) x all 255 aligned start residues; payload source delivering in full / in halves / alternating (rotated)"),
             st("c06.long", c06::long, (0, 0), 3, "multi-page lengths 1020k+d (k=1..3, d=-20..20), 2^k-1, 2^k, 2^k+1 for k=12..17 and 20, 200000 x 16 residues x 3 fill patterns x 3 source read modes"),
-            st("c06.neighbours", c06::neighbours, (0, 0), 3, "all programs of depth <=3 over blobs, every image kind with/without mask, cloud; unique payload patterns"),
-            st("c06.flows", c06::flows, (0, 0), 3, "all programs of depth <=2 over the 18-op blob/image alphabet x 7 flows: projection added before the visual reference, an additional finalize() after the first op, a finalize_customized_xml with failing transformer in front of the real finalize, and their combinations; every payload must be listed and lead to its own data"),
+            st("c06.neighbours", c06::neighbours, (0, 0), 3, "all programs of depth <=3 (thorough <=4: 111 151 programs) over blobs, every image kind with/without mask, cloud; unique payload patterns"),
+            st("c06.flows", c06::flows, (0, 0), 3, "all programs of depth <=2 (thorough <=3, checkpoint after every op) over the 18-op blob/image alphabet x 7 flows: projection added before the visual reference, an additional finalize() after the first op, a finalize_customized_xml with failing transformer in front of the real finalize, and their combinations; every payload must be listed and lead to its own data"),
             st("c06.behind", c06::behind, (0, 0), 3, "a blob and an image with masks (one empty) behind 100 KiB .. 4 MiB of other content x {nothing, a blob, a cloud} behind them"),
             st("c06.foreign", c06::foreign, (0, 0), 3, "3 documents x every child position of every image representation x foreign jpegImage / pngImage / imageMask elements (blob typed; inside a foreign wrapper): descriptors and data unchanged"),
             st("c06.many", c06::many, (0, 0), 3, "255 / 256 / 257 / 300 images in one file (kinds rotating, mask on every third, unique payloads): every descriptor leads to its own data"),
@@ -287,9 +287,9 @@ pub fn checks() -> Vec<Check> {
             c13::normalise,
             (0, 0),
             3,
-            "22 attribute types x 23 limit shapes x {intensity, red, green, blue} x {next colour channel's limits complete / without maximum / absent} x normalisation on/off; per case every stored value of the range (<=4097) or boundaries + mini-float lattice",
+            "22 attribute types x 23 limit shapes x {intensity, red, green, blue} x {next colour channel's limits complete / without maximum / absent} x normalisation on/off; per case every stored value of the range (<=4097; thorough: <=65537, else 5000 grid points) or boundaries + mini-float lattice (thorough: + the 65536 floats whose low 16 bits are zero)",
         ),
-            st("c13.late_switch", c13::late_switch, (0, 0), 3, "4 types x 4 attributes x {on->off, off->on} x switch after 1 / 4 points on a 3-packet cloud: the values of the third packet equal those of an iterator configured that way up front"),
+            st("c13.late_switch", c13::late_switch, (0, 0), 3, "4 types (thorough: all 22) x 4 attributes x {on->off, off->on} x switch after 1 / 4 points (thorough: after every count 0..40 in front of the third packet) on a 3-packet cloud: the values of the third packet equal those of an iterator configured that way up front"),
         ],
         extra: None,
         rule: "full product; each case is an e57spec-encoded cloud holding the whole stored-value list, read by the real simple iterator with normalisation on and off; invariants (in [0,1], not NaN, monotone) on every value, equality with clamp((v-lo)/(hi-lo)) within 2.4e-7; non-trivial = both switch settings judged",
